@@ -28,6 +28,7 @@ type Stats struct {
 	Probes     map[string]int64 `json:"probes"`
 	Nontrivial int64            `json:"nontrivial"`
 	Deadlines  int64            `json:"deadline_calls"`
+	SimMs      int64            `json:"sim_ms"`       // fake-clock time that passed in the bubbles (idling clients)
 	States     map[string]int64 `json:"model_states"` // abstract model states reached: phase/#statements/#portals
 }
 
@@ -43,6 +44,7 @@ func (s *Stats) Merge(o *Stats) {
 	s.Decisions += o.Decisions
 	s.Nontrivial += o.Nontrivial
 	s.Deadlines += o.Deadlines
+	s.SimMs += o.SimMs
 	for k, v := range o.Faults {
 		s.Faults[k] += v
 	}
@@ -142,6 +144,7 @@ func (x *Exec) Run(c *Case) *Result {
 	for _, c := range r.Conns {
 		x.Stats.Events += int64(len(c.Events))
 		x.Stats.Deadlines += int64(c.Deadlines)
+		x.Stats.SimMs += c.IdleMs
 		for k, v := range c.FaultFired {
 			x.Stats.Faults[k] += int64(v)
 		}
